@@ -25,6 +25,9 @@ def model_checks(tier):
     return [dict(name='enc_g', module='MC_Boc.tla', gen=True, workers=8, timeout=1500,
                  cfg=boc_cfg(2, [0, 1, 8] if q else [0, 1, 7, 8, 9], X3, [1, 2] if q else [1, 2, 4], [2, 3] if q else [2, 3, 8],
                              'FALSE, TRUE', 'TRUE', 'FALSE', invs=False)),
+            # the smallest bags under every count width and offset width (header length checks are tightest here)
+            dict(name='enc1_g', module='MC_Boc.tla', gen=True, workers=4, timeout=1500,
+                 cfg=boc_cfg(1, [0, 9], '{}', [1, 2, 3, 4], [1, 2, 8], 'FALSE, TRUE', 'TRUE', 'FALSE', invs=False)),
             dict(name='enc3_g', module='MC_Boc.tla', gen=True, workers=8, timeout=1500,
                  cfg=boc_cfg(3, [1] if q else [1, 8], '{"pruned"}' if q else X3, [1], [2], 'FALSE, TRUE', 'TRUE', 'FALSE', invs=False, maxrefs=2)),
             dict(name='boc_m', module='MC_Boc.tla', workers=16, timeout=1500,
@@ -76,7 +79,7 @@ def generate(tier, seed, ctx):
     rng = random.Random(seed)
     q = tier == 'quick'
     valid = []
-    for name in ('enc_g', 'enc3_g'):
+    for name in ('enc_g', 'enc1_g', 'enc3_g'):
         valid += [(name, e) for e in ctx['mc'].get(name, [])]
     rng.shuffle(valid)
     keep = valid[:2500] if q else valid[:30000]
